@@ -149,12 +149,17 @@ def rule_doc(c, prog):
     id_lid = common.param_lid_by_type(fn, lambda t: t.endswith("referent::Ref"))
     for x in core.walk_fn(fn):
         if x.get("k") == "MethodCall" and x["m"] == "attr" and core.lit_value(x["args"][0]) == "referent":
-            v = core.strip(x["args"][1])
+            def unfold(e, depth=0):
+                e = core.strip(e)
+                while e.get("k") in ("AddrOf", "Unary"):
+                    e = core.strip(e["e"])
+                if e.get("k") == "Path" and e.get("lid") in lets and depth < 5:
+                    return unfold(lets[e["lid"]]["init"], depth + 1)
+                return e
+            v = unfold(x["args"][1])
             if v.get("k") == "MethodCall" and v["m"] == "to_string":
-                src = core.strip(v["recv"])
-                e = core.strip(lets[src["lid"]]["init"]) if src.get("k") == "Path" and src.get("lid") in lets else src
-                ty = lets[src["lid"]]["pat"].get("ty") if src.get("k") == "Path" and src.get("lid") in lets else e.get("ty")
-                ref_ok = e.get("k") == "MethodCall" and e["m"] == "map_id" and ty == "u32" and core.strip(e["args"][0]).get("lid") == id_lid
+                e = unfold(v["recv"])
+                ref_ok = e.get("k") == "MethodCall" and e["m"] == "map_id" and (e.get("ty") or "") == "u32" and core.strip(e["args"][0]).get("lid") == id_lid
     cls_ok = any(x.get("k") == "MethodCall" and x["m"] == "attr" and core.lit_value(x["args"][0]) == "class" and [p for p in core.place_root(x["args"][1])[1] if not p.startswith(".")][-1:] == ["class"] for x in core.walk_fn(fn))
     if cls_ok and set(attrs) == {"class", "referent"}:
         c.ok(R, "item:attributes")
@@ -210,6 +215,17 @@ def rule_read(c, prog):
     # whitespace removed before decoding: a filter / retain whose predicate is a whitespace test, or a split on whitespace
     ok = any(x.get("k") == "MethodCall" and x["m"] in ("filter", "retain") and x["args"] and any(y.get("k") == "MethodCall" and y["m"] in ("is_whitespace", "is_ascii_whitespace") for y in core.walk(x["args"][0])) for x in core.walk_fn(rb)) \
         or any(x.get("k") == "MethodCall" and x["m"] in ("split_whitespace", "split_ascii_whitespace") for x in core.walk_fn(rb))
+    if not ok:
+        # an explicit loop: characters are copied into the text that is decoded under a whitespace test, and what is
+        # decoded is that copy, not the characters as read
+        tests = [x for x in core.walk_fn(rb) if x.get("k") == "If" and any(y.get("k") == "MethodCall" and y["m"] in ("is_whitespace", "is_ascii_whitespace") for y in core.walk(x["c"])) and any(y.get("k") == "MethodCall" and y["m"] in ("push", "push_str", "extend") for y in core.walk(x))]
+        decs = [x for x in core.walk_fn(rb) if x.get("k") == "Call" and (core.callee(x) or "").startswith("base64::decode")]
+        if tests and decs:
+            built = {core.strip(y["recv"]).get("lid") for t_ in tests for y in core.walk(t_) if y.get("k") == "MethodCall" and y["m"] in ("push", "push_str", "extend")}
+            arg = core.strip(decs[0]["args"][0])
+            while arg.get("k") in ("AddrOf", "Unary"):
+                arg = core.strip(arg["e"])
+            ok = arg.get("lid") in built
     if ok:
         c.ok(R, "base64:whitespace-stripped")
     else:
